@@ -119,6 +119,22 @@ __CPROVER_ensures(nv_stored.buffer == tnum)
 #define NV_CONTRACT_cache_flatten_task NV_CACHE_TASK_CONTRACT(m_flatten, NV_FLATTEN, m_flatten_stats, m_flatten_buffers) \
 __CPROVER_requires(samples == &self->m_samples && dataset == &self->m_dataset)
 
+/* (b) the setters: scaling(mode) changes the mode and NOTHING else -- in particular a cache keeps the mode tag it was built under
+ * (it is NOT rebuilt / dropped): after scaling(m') with m' != the build mode, NV_CACHE_OK no longer holds.  Usage rule (and
+ * assumption of targets_at / flatten_at): the mode is set before cache_* and not afterwards -- true at every library call site
+ * (src/linear.cpp:34-37, 119-120; src/linear/util.cpp:34-35; src/gboost/model.cpp:91-100, 321-322); natively demonstrated hazard:
+ * FINDING_scaling_after_cache.md */
+#define NV_CONTRACT_scaling_set \
+__CPROVER_requires(NV_XITER_FRESH) __CPROVER_assigns(self->m_scaling) \
+__CPROVER_ensures(self->m_scaling == NV_ARG_scaling_set_1) \
+__CPROVER_ensures(self->m_targets.mode == __CPROVER_old(self->m_targets.mode) && self->m_flatten.mode == __CPROVER_old(self->m_flatten.mode) \
+                  && self->m_targets.rows == __CPROVER_old(self->m_targets.rows) && self->m_flatten.rows == __CPROVER_old(self->m_flatten.rows)) \
+__CPROVER_ensures(self->m_targets.scaled == __CPROVER_old(self->m_targets.scaled) && self->m_flatten.scaled == __CPROVER_old(self->m_flatten.scaled) \
+                  && self->m_targets.stats == __CPROVER_old(self->m_targets.stats) && self->m_flatten.stats == __CPROVER_old(self->m_flatten.stats))
+#define NV_CONTRACT_batch_set \
+__CPROVER_requires(NV_XITER_FRESH) __CPROVER_assigns(self->m_batch) \
+__CPROVER_ensures(self->m_batch == NV_ARG_batch_set_1)
+
 /* make_range / tensor_range_t(begin, end): extracted */
 void range_ctor(struct nv_range* self, int64_t begin, int64_t end);
 static struct nv_range nv_range_make(int64_t begin, int64_t end) { struct nv_range r; range_ctor(&r, begin, end); return r; }
